@@ -34,6 +34,7 @@ IT = dict(file=F, subst=TYPES, methods=METHODS, calls=CALLS, deref=DEREF, self_c
 INFO_REF = [(r'\A\s*\{', '{\n#define info (*info_p)\n', 'info_ref'), (r'\}\s*\Z', '\n#undef info\n}', 'info_unref')]
 
 UNIT = dict(
+  loop_obligation={'FIND': 'hmm.find.commit', 'INS': 'hmm.insert.commit', 'LAZY': 'hmm.insert.commit', 'ERK': 'hmm.erase.commit', 'ERI': 'hmm.iter.erase.commit'},
   title='harris_michael_hash_map: order predicates, find / insert / erase, iterator (C08, C09)',
   properties=['C08', 'C09'],
   drops='templates (Key = 32-bit word with the built-in total order, Value = opaque word, hash = uninterpreted function of the key, '
@@ -124,6 +125,27 @@ S += [
   dict(MAP, id='begin', sig=r'auto ' + Q + r'begin\(\) -> iterator', c_sig='static struct iterator hmm_begin(struct hmm* self)', must_fire={'call:iterator': 1}),
   dict(MAP, id='end', sig=r'auto ' + Q + r'end\(\) -> iterator', c_sig='static struct iterator hmm_end(struct hmm* self)', must_fire={'call:iterator': 1}),
 ]
+# ---- the same texts once more with their retry loops cut by invariants, for the INT (interference) runs ------------------------------
+SELF_ABS = dict(SELF, find='HMM_FIND_ABS')
+S += [
+  dict(MAP, id='find_int', sig=r'bool ' + Q + r'find\(hash_t hash,\s*const Key& key,\s*std::size_t bucket,\s*find_info& info,\s*backoff& backoff\)',
+       c_sig='static _Bool hmm_find_int(struct hmm* self, hash_t hash, kkey_t key, size_t bucket, struct find_info* info_p, int backoff)',
+       cut_loops={0: 'FIND'}, post_subst=INFO_REF + [(r'\bgoto retry;', 'XV_RETRY_CUT;', 'goto_retry')],
+       must_fire={'method:acquire_if_equal': 1, 'A_LOAD': 4, 'A_CASW': 1, 'method:reclaim': 1, 'subst:goto_retry': 4, 'cut_loop': 1}),
+  dict(MAP, id='emplace_or_get_int', sig=r'auto ' + Q + r'emplace_or_get\(Args&&\.\.\. args\) -> std::pair<iterator, bool>',
+       c_sig='static struct pair_ib hmm_emplace_or_get_int(struct hmm* self, kkey_t key, val_t value)', self_calls=SELF_ABS, cut_loops={0: 'INS'},
+       pre_subst=[(r'new node\(construct_without_hash\{\}, std::forward<Args>\(args\)\.\.\.\)', 'XV_NEW_NODE_WITHOUT_HASH(key, value)', 'new_node')],
+       must_fire={'self_call:find': 1, 'A_STORE': 1, 'A_CASW': 1, 'subst:delete': 1, 'cut_loop': 1}),
+  dict(MAP, id='do_get_or_emplace_lazy_int', sig=r'auto ' + Q + r'do_get_or_emplace_lazy\(Key key, Factory node_factory\)\s*-> std::pair<iterator, bool>',
+       c_sig='static struct pair_ib hmm_do_get_or_emplace_lazy_int(struct hmm* self, kkey_t key, mptr (*node_factory)(hash_t, kkey_t))',
+       self_calls=SELF_ABS, cut_loops={0: 'LAZY'}, must_fire={'self_call:find': 1, 'A_STORE': 1, 'A_CASW': 1, 'subst:delete': 1, 'cut_loop': 1}),
+  dict(MAP, id='erase_key_int', sig=r'bool ' + Q + r'erase\(const Key& key\)',
+       c_sig='static _Bool hmm_erase_key_int(struct hmm* self, kkey_t key)', self_calls=SELF_ABS, cut_loops={0: 'ERK'},
+       must_fire={'self_call:find': 2, 'A_CASW': 2, 'method:reclaim': 1, 'cut_loop': 1}),
+  dict(MAP, id='erase_it_int', sig=r'auto ' + Q + r'erase\(iterator pos\) -> iterator',
+       c_sig='static struct iterator hmm_erase_it_int(struct hmm* self, struct iterator pos)', self_calls=SELF_ABS, cut_loops={0: 'ERI'},
+       must_fire={'self_call:find': 1, 'A_LOAD': 1, 'A_CASW': 2, 'method:reclaim': 1, 'cut_loop': 1}),
+]
 # ---- iterator ------------------------------------------------------------------------------------------------------------------------
 S += [
   dict(IT, id='it_ctor1', sig=r'explicit iterator\(harris_michael_hash_map\* map\)', ctor=True,
@@ -155,17 +177,34 @@ UNIT['runs'] += [
   dict(id='map_to_bucket_b2', entry='h_map_to_bucket', cls='unbounded', defs={'NB': 2}),
 ]
 CALLERS = ('h_lookup', 'h_insert', 'h_erase_key', 'h_inc', 'h_erase_it', 'h_begin')
+def FC(e, NB, L, memo, tiers):
+  r = RUN(e, NB, L, memo, tiers); r['defs']['XV_FIND_CONTRACT'] = 1; r['id'] += '_fc'
+  r['note'] = 'internal find replaced by its executable contract (proved equivalent to the real text by run find_b%d_l%d_m%d); ' % (NB, L, memo) + r['note']
+  return r
+ALL = ('quick', 'thorough'); TH = ('thorough',)
 for memo in (0, 1):
-  UNIT['runs'].append(RUN('h_find', 2, 3, memo))
-  for e in CALLERS:
-    r = RUN(e, 2, 3, memo); r['defs']['XV_FIND_CONTRACT'] = 1; r['id'] += '_fc'
-    r['note'] = 'internal find replaced by its executable contract (proved equivalent to the real text by run find_*); ' + r['note']
+  for (NB, L, tiers) in ((2, 3, ALL), (1, 2, ALL), (2, 4, TH), (1, 4, TH), (2, 5, TH)):
+    UNIT['runs'].append(RUN('h_find', NB, L, memo, tiers))
+    for e in CALLERS: UNIT['runs'].append(FC(e, NB, L, memo, tiers))
+  # cross-checks (thorough): callers with the real find inlined; full-width words
+  for e in CALLERS[:-1]:
+    r = RUN(e, 2, 3, memo, TH); r['id'] += '_real'; r['timeout'] = 3000; UNIT['runs'].append(r)
+  UNIT['runs'].append(RUN('h_find', 2, 3, memo, TH, word='uintptr_t'))
+  for e in ('h_inc', 'h_erase_it', 'h_insert'): UNIT['runs'].append(FC(e, 2, 3, memo, TH)); UNIT['runs'][-1]['defs']['XV_WORD'] = 'uintptr_t'; UNIT['runs'][-1]['id'] += '_w64'
+for memo in (0, 1):
+  for (L, tiers) in ((2, ALL), (3, TH)):
+    r = RUN('h_inc_int', 2, L, memo, tiers, mode='INT'); r['unwindset'] = [x for x in UW(L + 1, 2) if not x.startswith('it_inc')] + ['it_inc.0:3']
+    r['note'] = 'INT: one step of another handle (insert / mark / unlink) between any two atomic steps of operator++; real find, run without interference'
     UNIT['runs'].append(r)
-for memo in (0, 1):
-  r = RUN('h_inc_int', 2, 2, memo, mode='INT'); r['unwindset'] = [x for x in UW(3, 2) if not x.startswith('it_inc')] + ['it_inc.0:3']
-  r['note'] = 'INT: one step of another handle (insert / mark / unlink) between any two atomic steps of operator++; real find, run without interference'
-  UNIT['runs'].append(r)
+for e, memo in (('h_find_int', 0), ('h_find_int', 1), ('h_insert_int', 0), ('h_insert_int', 1), ('h_erase_key_int', 0), ('h_erase_it_int', 0)):
+  UNIT['runs'].append(dict(id='%s_b2_m%d' % (e[2:], memo), entry=e, mode='INT', cls='shape-complete', defs={'NB': 2, 'L': 2, 'XV_MEMO': memo, 'XV_ENV_ARBITRARY': 1},
+                           unwindset=['it_move_to_next_bucket.0:2'],
+                           note='INT: every shared cell may change before every atomic step (rely: marked next fields are frozen, the private new node is untouched); retry loops cut by invariants; monitors check every CAS / reclaim; pool of L+3 nodes'))
 UNIT['obligations'].update({
+  'hmm.find.commit': dict(deciding=True, text='[INT] find: its unlink CAS uses the cell and value validated by the latest acquire_if_equal and the successor frozen by the mark, reclaim only after that CAS succeeded; on return cur is validated, unmarked, was still linked from prev when compared, result = key equality on it'),
+  'hmm.insert.commit': dict(deciding=True, text='[INT] insertion: the linking CAS is on the cell/value find validated, installs the private initialised node whose next is that value; true iff this CAS succeeded; otherwise nothing published and the node freed'),
+  'hmm.erase.commit': dict(deciding=True, text='[INT] erase: marking CAS on cur->next from the unmarked value read to the same value with mark; true only after it succeeded; unlink CAS on the validated prev from cur to the frozen successor; retire iff that CAS succeeded, else find is re-run'),
+  'hmm.iter.erase.commit': dict(deciding=True, text='[INT] erase(iterator): as erase(key); the returned iterator never designates the erased node'),
   'hmm.iter.inc.progress': dict(deciding=True, text='[INT] ++ never designates the old element again and moves strictly forward, also when another handle inserts/erases next to cur between its steps (F11)'),
   'hmm.order.total': dict(deciding=True, text='greater_or_equal is the >= of a total order on (hash, key) that is consistent with key equality, for data_without_hash and data_with_hash'),
   'hmm.map_to_bucket.range': dict(deciding=True, text='map_to_bucket(h, num_buckets) < num_buckets'),
@@ -183,4 +222,13 @@ UNIT['obligations'].update({
   'hmm.iter.erase.exact': dict(deciding=True, text='erase(iterator) marks exactly the referenced node, unlinks and retires it once (or leaves that to whoever unlinked it), returns an iterator to the following element'),
   'hmm.iter.begin.first': dict(deciding=True, text='begin() designates the first linked node of the first non-empty bucket, end() designates nothing'),
 })
-UNIT['canaries'] += ['order.nohash.strict', 'order.hash.collision', 'order.hash.decreasing', 'map_to_bucket.reached']
+import re as _re, os as _os
+UNIT['canaries'] = sorted(set(_re.findall(r'XV_CANARY\("([^"]+)"\)', open(_os.path.join('/verif/units/hmm', 'harness.c')).read())))
+UNIT['replays'] = {
+  'hmm.find.iff_live': dict(src='replay_map.cpp', fixed={'op': 'find'}),
+  'hmm.insert.iff_absent': dict(src='replay_map.cpp', fixed={'op': 'insert'}),
+  'hmm.erase.iff_present': dict(src='replay_map.cpp', fixed={'op': 'erase_key'}),
+  'hmm.iter.inc.no_skip': dict(src='replay_map.cpp', fixed={'op': 'inc'}),
+  'hmm.iter.inc.next_live': dict(src='replay_map.cpp', fixed={'op': 'inc'}),
+  'hmm.iter.erase.exact': dict(src='replay_map.cpp', fixed={'op': 'erase_it'}),
+}
